@@ -65,6 +65,12 @@ CHECKS["C07"] = dict(engine="tlc+vdrive",
    text="TLC explores every split of every stream of up to 3 packets (lengths 0..7, maxLen 6, reads up to 5 bytes) and 4-packet streams around maxLen with coalescing reads: alignment (nothing lost/duplicated/carried), only legal packets handed out, a complete packet is never left waiting, illegal length closes, all legal packets eventually delivered. The real tcp server recv loop and the real client recv loop (real protocol.TarsRequest) are then driven with streams around the 4-byte minimum, the 4096-byte read buffer and maximum lengths 16..10 MB, cut into single bytes / inside headers / all at once / aligned / random; every read size and every packet handed over is recorded by hooks and TLC checks the trace against the spec; an illegal length must close that connection only (a second connection is probed).",
    design_ref="5/C07", note="Trusted: hooks tcp.recv.read/tcp.handleConn/client.recv.read/client.recv.pkg/parseError (self-tested each run); packet identity via uniform payload bytes; 10 MB packets are not physically sent (maximum lengths up to 100000 are, 1 MB packets in the thorough tier).")
 
+CHECKS["C12"] = dict(engine="tlc+vdrive",
+   technique="TLA+ spec ServerShutdown.tla (accept loop, recv loops, handlers via goroutine or pool queue/dispatcher, Release handshake, Shutdown poller) model-checked by TLC incl. liveness; trace validation (Trace_ServerShutdown) of real transport.TarsServer runs shut down under load, observed through server hooks and client-side observations",
+   category="model_checking",
+   text="TLC checks for 2 connections x 3-4 requests, pool 0/1/2: a connection is closed only after everything read from it was answered, no response is written to a closed connection, clients are notified, Shutdown returns only when drained or expired, and under fairness everything read is eventually answered and Shutdown drains (the early-release variant must violate this). Real servers (pool 0/1/2, queue 1/3, default timeouts) get 0-6 requests with handler durations up to 400 ms on 1-2 connections and are shut down 0-300 ms later; every run's event trace (hooks: read, invoked, written, closed, accept exit, pool released; clients: response, close notification, end of stream; Shutdown start/end) must be a behaviour of the spec and end with everything read answered.",
+   design_ref="5/C12", note="Trusted: server hooks (self-tested each run); pool abstraction (GPool.tla checked separately by C19); wall clock only via the 4 s context vs <= 400 ms handlers. The window between reading a request and counting it (microseconds) is not modelled.")
+
 PENDING = {}
 
 def main():
